@@ -275,6 +275,8 @@ Proof.
   - now apply Inv_save.
   - pose proof (Inv_load k st I) as H. now destruct (load sch k st) as [[?|?] ?].
   - apply Inv_fresh. apply I.
+  - destruct k; simpl; [now apply (Inv_save Memory)|]. now destruct (changed sch st).
+  - destruct k; simpl; [assumption|]. now destruct (file st).
   - assumption.
   - pose proof (Inv_get c st W I) as H. now destruct (get_settings sch c st) as [[?|?] ?].
 Qed.
@@ -380,6 +382,8 @@ Proof.
     destruct (Z.eqb v 1) eqn:V; [|assumption]. simpl.
     apply (file_sync_after_load st); [congruence|]. simpl. now rewrite E, V.
   - congruence.
+  - now destruct (changed sch st).
+  - now destruct (file st).
   - assumption.
   - destruct (get_file_synced c st) as [A B]. destruct (get_settings sch c st) as [[?|?] s']; simpl in *;
       unfold file_sync in *; now rewrite A, B.
